@@ -666,7 +666,7 @@ pub fn scenario(stream: &str, r: &mut Rng, idx: u64) -> Vec<String> {
                 let cfg = gen_cfg(r, &o);
                 out.push(format!("msrc {} {}", fmt_entries(&es), &cfg[4..]));
             }
-            let mf = *r.pick(&["concat", "concat", "first", "sum", "bag"]);
+            let mf = *r.pick(&["concat", "concat", "first", "sum", "bag", "frame", "frame"]);
             out.push(format!("merge {} 0", mf));
             out.push(format!("mergew {} 0", mf));
         }
